@@ -64,6 +64,8 @@ pub struct World {
     pub files: BTreeMap<String, FileState>,
     pub transcript_for: BTreeMap<usize, Value>,
     pub ai_checkpoints: usize,
+    /// last checkpoint payload (for verbatim repetition)
+    pub last_checkpoint: Option<String>,
 }
 
 #[derive(Debug, Clone, Default)]
@@ -94,6 +96,7 @@ impl World {
             files: BTreeMap::new(),
             transcript_for: BTreeMap::new(),
             ai_checkpoints: 0,
+            last_checkpoint: None,
         };
         for i in 0..4 {
             let tool = format!("tool{}", i);
@@ -211,7 +214,13 @@ impl World {
             "will_edit_filepaths": will_edit,
         });
         let s = payload.to_string();
+        self.last_checkpoint = Some(s.clone());
         self.gai(&["checkpoint", "agent-v1", "--hook-input", &s])
+    }
+
+    pub fn repeat_last_checkpoint(&mut self) -> Option<Out> {
+        let s = self.last_checkpoint.clone()?;
+        Some(self.gai(&["checkpoint", "agent-v1", "--hook-input", &s]))
     }
 
     pub fn checkpoint_ai(&mut self, sess: usize, edited: &[&str]) -> Out {
@@ -228,6 +237,7 @@ impl World {
         });
         let p = payload.to_string();
         self.ai_checkpoints += 1;
+        self.last_checkpoint = Some(p.clone());
         self.gai(&["checkpoint", "agent-v1", "--hook-input", &p])
     }
 
